@@ -107,6 +107,21 @@ SHORT = {
     'C18-agent5': 'writeTextEdgeList writes to <stem>.tmp and renames (writers to distinct files sharing a stem collide; no memory-level race)',
     'C19-agent5': 'Dijkstra relaxes on <= (ties re-push: scans grow with the number of shortest paths, zero-weight cycles never terminate)',
     'C20-agent5': 'operator<< of LabeledDirectedGraph streams the label (a struct label without operator<< no longer compiles)',
+    'C01-agent6': 'hasEdge answers true for any two distinct vertices once getEdgeNumber() >= n(n-1) ("complete graph"; self-loops count towards the edge number)',
+    'C03-agent6': 'clearEdges of the labelled base stops when its running edge counter reaches zero (undirected: every edge sits in two lists, later lists stay filled, labels gone)',
+    'C04-agent6': 'UndirectedMultigraph::removeVertexFromEdgeList returns once the mirrored entries are erased (own row and self-loop of a vertex whose neighbours all have smaller indices stay)',
+    'C05-agent6': 'DirectedWeightedGraph::removeSelfLoops sums the removed weights in a float (total off by 6e-8 of the removed weight)',
+    'C06-agent6': 'LabeledUndirectedGraph::removeVertexFromEdgeList walks only the neighbours and skips the self-loop entry together with the erase of its label (stale label: == false against an equal graph)',
+    'C07-agent6': 'undirected addEdge drops its range checks and relies on at(): addEdge(valid, invalid, force=true) pushes the invalid index before throwing',
+    'C08-agent6': 'directed -> undirected conversion guards its forced insertion with the label-aware hasEdge (reciprocal pair with different labels: the pair is stored twice)',
+    'C09-agent6': 'DirectedMultigraph container constructor skips entries of multiplicity 0 before sizing the graph (fewer than 1+largest-index vertices)',
+    'C10-agent6': 'getSubgraphWithRemap reads newMapping[j] before the membership test and iterates the map it inserts into (extra keys sent to 0; from 14 vertices on edges lost / invented)',
+    'C11-agent6': 'path enumerator behind findAllGeodesics throws after more than n^2 back-tracking steps (pairs with more shortest-path suffixes than n^2, from 14 vertices on)',
+    'C12-agent6': 'DirectedWeightedGraph container constructor unpacks the weight into an unsigned int (fractional weights truncated before Dijkstra runs)',
+    'C13-agent6': 'findEdgeFromString looks for the label at pos4+1 (npos wraps to 0: a line ending right after the second token hands the whole line to the label parser)',
+    'C14-agent6': 'labelled writeBinaryEdgeList opens with ios::app (an existing file is not replaced)',
+    'C15-agent6': 'binary loaders test end of file through peek() stored in a char (a record starting with byte 0xFF, source vertex 255 / 511, ends the load silently)',
+    'C16-agent6': 'UndirectedWeightedGraph::removeDuplicateEdges caches the last weight by neighbour index across vertices (two duplicated pairs sharing the larger endpoint: total weight wrong)',
 }
 
 CONSEQUENCE = {
@@ -158,6 +173,11 @@ CONSEQUENCE = {
     'C13-agent5': 'missed as it stood: the graphs of the text round trip had no duplicate list entries ("any graph") -> 8 % forced entries',
     'C17-agent5': 'missed by the quick tier as it stood (no construction from a container in the streams; valgrind runs in the thorough tier only) -> `xcopy` in the C17 streams; reported through the model comparison of the stream (total weight -nan)',
     'C18-agent5': 'missed as it stood: the per-thread file names differed in the stem -> names that differ only in the extension (shard.0, shard.1) or only in the last character of the stem, chosen per case',
+    'C08-agent6': "reported by C09, not by C08: the conversion is C09's subject; the enumeration honestly visits what the converted graph stores",
+    'C09-agent6': 'missed as it stood: container entries of the multigraphs had multiplicities 1..3 -> a fifth of the entries have multiplicity 0 (adds nothing, counts for the size)',
+    'C11-agent6': 'missed as it stood: the graphs of C11 had at most 10 vertices, the many-path families belonged to C19 (work counts only) -> a C11 job on the layered / grid / diamond / ladder / clique-chain families at sizes where every pair has at most 4^6 or 3^8 shortest paths, complete path sets compared',
+    'C12-agent6': "missed by C12 as it stood (C09 caught it): the searched graph was always the object the history was applied to -> `via`: 30 % of the cases search a copy, a rebuild through the container constructor (vector or list) from the graph's edges and weights, or a moved-to object",
+    'C14-agent6': 'missed as it stood: every case wrote to a path that did not exist -> in a quarter of the round trips of C13 and C14 the output path already holds a file (junk, one record, or a longer file than the new one)',
 }
 
 REVERTS = [
@@ -204,24 +224,24 @@ that found it originally.
 
 ### 9.2 Changes written by independent sub-agents (`seeded/<id>/`)
 
-%d changes, five per property, each written by a fresh sub-agent that was given
+%d changes - five per property and a sixth for fifteen of them - each written by a fresh sub-agent that was given
 only the text of one property and its own scratch worktree (nothing from
 `/verif`); the agents of the second and third round were additionally told, in
 one line each, what the earlier ones had done and asked for something unrelated,
 the third round also for something "hard to trigger by randomly generated small
-inputs", the fourth and fifth for the kinds of change named below. For each one `seeded/<id>/` holds `patch.diff`, the agent's `demo.cpp`
+inputs", the fourth, fifth and sixth for the kinds of change named below. For each one `seeded/<id>/` holds `patch.diff`, the agent's `demo.cpp`
 and `notes.txt`, and `meta.json` (what it needs to manifest, what was run, the
 outcome). Confirmed for all of them by `tools/mutant_run.py` and
 `tools/confirm_demos.py`: the patch applies, the 364 tests pass with it,
 `demo.cpp` exits non-zero with the patch and 0 without.
 
 **All %d are now reported by the quick tier** (seed 1)%s.
-47 of them were *not* (or not reliably, or only by the check of another property)
+51 of them were *not* (or not reliably, or only by the check of another property)
 caught by the version of the checks that existed when they were written; the last
 column says what was changed in the machinery because of them - in every case by
 widening the generator or the set of observations, never by special-casing the
 change. The miss rate did not go down from round to round - 5, 6, 11, 16 and 9
-of 20 - because the later agents were asked for subtler changes: the fourth round
+of 20, then 4 of 15 (C08-agent6, reported by C09 alone, not counted) - because the later agents were asked for subtler changes: the fourth round
 was asked for changes that need *accumulated state*, a *word-size threshold*
 (64 neighbours, 256 vertices, 8192 records, 2^14 updates, 2^16 calls), *two
 cooperating sites* or *an order of three different operations on one object*. It
@@ -235,7 +255,14 @@ combinations of two features; what it added are value-semantics operations insid
 histories (copy, self-assignment, move, rebuilding through a container
 constructor), setters in the construction histories of the graph-shaped cases,
 duplicate entries in the round-trip graphs and file names that differ only in
-their extension.
+their extension. The sixth round (fifteen properties) was asked for failures that
+depend on values or positions (index relations, list positions, particular label,
+weight or multiplicity values, neighbour counts) or on two features used one after
+the other; eleven of the fifteen were reported by the checks as they stood, and
+the four misses added many-path families with complete path sets to C11,
+multiplicity-0 container entries to C09, output paths that already hold a file to
+C13 / C14, and searches on copies, container-constructor rebuilds and moved-to
+objects to C12.
 
 | id | change | reported by | consequence for the machinery |
 |---|---|---|---|
